@@ -165,6 +165,21 @@ static void gen_params(const char *profile, uint64_t base, long idx)
 			P.m_absorbing = 0;
 			P.m_extra = 30;
 		}
+		if(!how && prng_below(&rm, 2)) {
+			/* events never dry up: the predicates are the only way out (GVT never reaches "no event left") */
+			P.m_endless = 1;
+			P.m_absorbing = 0;
+			P.m_fanout = 0;
+			P.m_nosend = 0;
+			P.m_forward = 0;
+			if(P.m_pred > 2)
+				P.m_pred = 0;
+			/* a thread never runs out of work: a priority-based schedule would starve the others for ever */
+			P.policy = PICK(&rs, 0, 0, 2);
+			P.p_stay = PICK(&rs, 0, 50, 90);
+			if(P.clk_den == 0) /* nor may time stand still while work is done: the reduction timer would never expire */
+				P.clk_den = 1;
+		}
 	} else if(!strcmp(profile, "c10")) {
 		P.engine = 4;
 		P.serial = 1;
@@ -287,6 +302,16 @@ static void gen_params(const char *profile, uint64_t base, long idx)
 		if(P.u_threads > 6)
 			P.u_threads = 2;
 		P.u_ops = 1 + (int64_t)prng_below(&rc, 40);
+		if(prng_below(&rc, 160) == 0) {
+			/* "reused indefinitely": more crossings than fit a 16-bit counter, with two threads to keep it cheap */
+			P.u_threads = 2;
+			P.u_ops = 66000 + (int64_t)prng_below(&rc, 3000);
+			P.max_sps = 30000000;
+			/* a spinning thread burns steps until it is descheduled: only a round-robin schedule bounds the cost of a crossing */
+			P.policy = 2;
+			P.rr_q = 1 + (int64_t)prng_below(&rc, 5);
+			P.stall_rate = 0;
+		}
 	} else {
 		fprintf(stderr, "unknown profile %s\n", profile);
 		exit(2);
